@@ -14,6 +14,8 @@ ReqNames == {"same", "other", "prefix", "suffix", "infix", "longer", "empty"}
 ScRequire == { S("require", "minimal", "none", v, iv, op, nm) : v \in ReqVs, iv \in IsaVs, op \in {"==", ">=", "<=", ">", "<"}, nm \in {"same", "other"} }
              \cup { S("require", "minimal", "none", v, iv, op, nm) : v \in {Ver(<<1, 0, 0>>, Final)}, iv \in IsaVs, op \in {">=", "<"}, nm \in ReqNames }
              \cup { S("require", "minimal", "none", NoV, iv, "", nm) : iv \in IsaVs, nm \in ReqNames }
-ScQuick == ScDef \cup ScMinVerQuick \cup ScMinVer2 \cup ScRequire
-ScThorough == ScDef \cup ScMinVerFull \cup ScMinVer2 \cup ScRequire
+ScRequire2 == { S("require2", "minimal", "none", v, iv, op, nm) : v \in {Ver(<<1, 2, 3>>, Final), Ver(<<2>>, Final), Ver(<<0, 9, 9>>, Final)}, iv \in IsaVs,
+                                                                     op \in {"==", ">=", "<"}, nm \in {"same", "other", "prefix"} }
+ScQuick == ScRequire2 \cup ScDef \cup ScMinVerQuick \cup ScMinVer2 \cup ScRequire
+ScThorough == ScRequire2 \cup ScDef \cup ScMinVerFull \cup ScMinVer2 \cup ScRequire
 =============================================================================
